@@ -20,7 +20,7 @@ func init() {
 			Property: "C08",
 			Rule: "base programs: every program of <=3 (quick) / 4 (thorough) statements over {line, option group with bodies, if/elseif/else with operator-bearing conditions, set with and/or/comparison chains, command, call, jump, stop} on 1-2 nodes, and nesting shapes to depth 3; " +
 				"for each, every global layout of a list (indent unit 1,2,3,5,8 spaces or tab, per-depth varying widths, CRLF, CR, indented if-bodies, full and redundant parentheses, every operator spelling, padding inside commands at each kind of site, every reader composition, and combinations) is compared with the canonical rendering, " +
-				"and under the global layouts {canonical, CRLF, CR, tab (+ indented if-bodies in the thorough tier)} every single site deviation (quick) / every pair (thorough): a blank, whitespace-only or comment line (at indentation 0, of the next line, deeper) in every gap, a trailing comment on every line that admits one; " +
+				"and under the global layouts {canonical, CRLF, CR, tab (+ indented if-bodies in the thorough tier)} every single site deviation (quick) / every pair (thorough): a blank, whitespace-only or comment line (at indentation 0, of the next line, deeper) in every gap, a trailing comment on every line that admits one, file-level hashtag lines before the first node of a reader; readers: for every composition of the nodes into readers, every non-empty subset of the readers opened by a file-level hashtag line, hashtags + blank + comment lines, a blank line or a comment line; " +
 				"oracle: reflect.DeepEqual of tree.FromReaders for the two renderings, and equality of the complete observation trees (all choice paths on the real runner) for the global layouts; a case is one (program, rendering) pair; non-trivial = rendering differs from the canonical text",
 			StatesMean:  "distinct (program, rendering) pairs compared with the canonical rendering; transitions = parses + real Next calls",
 			Assumptions: []string{"small-scope hypothesis on program size", "traces of site-deviated renderings are not walked when the parsed dialogues are deeply equal (the runner is a deterministic function of the parsed dialogue: C09)"},
